@@ -247,6 +247,8 @@ def scenario(cell):
             cdir = Path(tmp)
         man, Tn = pipeline.build_manager(m, cell["tn"], M=cell["M"], N=cell["N"], errTol=cell["errTol"], maxIterations=cell["maxIt"],
                                          nparticles=npart, collision_dir=cdir, pressRelErrTol=cell.get("pressRel", 0.1))
+        if cell.get("thickMax"):
+            man.config.configEOM.wallThicknessBounds = (man.config.configEOM.wallThicknessBounds[0], float(cell["thickMax"]))
         hy = man.hydrodynamics
         settings = WallGo.WallSolverSettings(bIncludeOffEquilibrium=bool(npart), meanFreePathScale=50.0, wallThicknessGuess=5.0)
         rec = Recorder(WallGo)
@@ -264,6 +266,19 @@ def scenario(cell):
               "type": str(res.solutionType).split(".")[-1], "fromLast": bool(calls and same_as_last(res, calls[-1])),
               "typeOK": bool(res.wallVelocity is None or (str(res.solutionType).endswith("DEFLAGRATION") == (res.wallVelocity <= hy.vJ))),
               "msg": str(res.message)[:80]}
+        # do the returned wall parameters sit on a bound / the temperatures outside the tabulated ranges? (the code's own
+        # comparisons, with the bounds of the configuration in force)
+        ce = man.config.configEOM
+        tbb, obb = ce.wallThicknessBounds, ce.wallOffsetBounds
+        if res.wallWidths is not None and res.wallOffsets is not None:
+            w_, o_ = np.asarray(res.wallWidths, float), np.asarray(res.wallOffsets, float)
+            rv["pinned"] = bool(np.any(w_ == tbb[0] / Tn) or np.any(w_ == tbb[1] / Tn) or np.any(o_ == obb[0]) or np.any(o_ == obb[1]))
+        else:
+            rv["pinned"] = False
+        if res.temperaturePlus is not None and res.temperatureMinus is not None:
+            rv["inRange"] = bool(hy.TMinLowT <= res.temperatureMinus <= hy.TMaxLowT and hy.TMinHighT <= res.temperaturePlus <= hy.TMaxHighT)
+        else:
+            rv["inRange"] = True
         if kind != "VELOCITY" and res.wallVelocity is not None and not res.success:
             rv["v"] = -1
         evs.append(rv)
@@ -312,7 +327,7 @@ def scenario(cell):
             rec.close()
         if tmp:
             shutil.rmtree(tmp, ignore_errors=True)
-    cid = "{model}_tn{tn}_M{M}N{N}_tol{errTol}_it{maxIt}_p{p}_u{uu}".format(p=cell.get("particles", 0), uu=cell.get("u", 1.0), **cell)
+    cid = "{model}_tn{tn}_M{M}N{N}_tol{errTol}_it{maxIt}_p{p}_u{uu}".format(p=cell.get("particles", 0), uu=cell.get("u", 1.0), **cell) + (f"_L{cell['thickMax']}" if cell.get("thickMax") else "")
     # description of the observation, used ONLY to match entries of known_findings.json (the verdict is TLC's)
     contradict = any(e.get("e") == "Audit" and e["k"] >= 2 and ((e["okBelow"] and e["sBelow"] > 0) or (e["okAbove"] and e["sAbove"] < 0)) for e in evs)
     other = any(e.get("e") in ("Exception",) or (e.get("e") == "Repeat" and not e["same"]) or (e.get("e") == "Result" and e["kind"] == "VELOCITY" and not e["fromLast"]) for e in evs)
@@ -329,7 +344,8 @@ def cells(tier):
                 out.append(dict(model=mdl, tn=tn, M=M, N=5, errTol=tol, maxIt=20, history=["lte", "solve"] if tier == "quick" else ["lte", "solve", "matching", "deton", "solve"]))
     out.append(dict(model="one", tn=1.9, M=20, N=5, errTol=1e-3, maxIt=20, history=["solve"]))           # runaway
     out.append(dict(model="one", tn=2.1, M=20, N=5, errTol=1e-3, maxIt=3, history=["solve"]))           # forces the unconverged-pressure path
-    out.append(dict(model="one", tn=2.15, M=20, N=5, errTol=1e-3, maxIt=2, history=["deton"]))          # cap exit after one pass; detonation search: improved update from the start
+    out.append(dict(model="one", tn=2.15, M=20, N=5, errTol=1e-3, maxIt=2, history=["deton"]))
+    out.append(dict(model="one", tn=2.1, M=20, N=5, errTol=1e-3, maxIt=20, thickMax=2.0, history=["solve"]))       # wall width pinned to its upper bound: an error, not a velocity          # cap exit after one pass; detonation search: improved update from the start
     # out-of-equilibrium particles with synthetic collision files
     out.append(dict(model="one", tn=2.1, M=20, N=5, errTol=1e-3, maxIt=20, particles=1, cstrength=1.0, history=["solve"]))
     out.append(dict(model="two", tn=0.94, M=20, N=5, errTol=1e-3, maxIt=20, history=["solve"]))          # known finding C01-F1
